@@ -197,7 +197,7 @@ func checkUnaryPairing(e *Env, sim *Sim, prop string) {
 		if r.HInvoked >= 1 && !bytes.Equal(r.HReq, r.Spec.Req) {
 			e.Violate(prop, "request-mismatch", site, "call %d: handler saw %d bytes, caller sent %d", id, len(r.HReq), len(r.Spec.Req))
 		}
-		if r.Spec.HStatus != nil {
+		if r.Spec.HStatus != nil || r.Spec.BadReply != 0 {
 			continue
 		}
 		if r.InvokeErr != nil {
